@@ -28,7 +28,28 @@ int g_foreign;
 void janet_fixarity(int32_t argc, int32_t fix) { __CPROVER_assume(argc == fix); }
 void janet_arity(int32_t argc, int32_t min, int32_t max) { __CPROVER_assume(argc >= min && (max < 0 || argc <= max)); }
 JanetBuffer *janet_getbuffer(const Janet *argv, int32_t n) { SLOT_OK(n); __CPROVER_assert(n == 0, "buffer is slot 0"); return g_buf; }
-JanetByteView janet_getbytes(const Janet *argv, int32_t n) { SLOT_OK(n); __CPROVER_assert(n == g_bytes_slot, "byte view requested for the byte-sequence slot"); return g_bytes; }
+/* byte view: for blit/slice the fixed view g_bytes (of g_buf itself iff g_same); for the push family (g_bytes_slot == -2,
+ * any slot >= 1 may hold a byte sequence) each call returns either the CURRENT bytes of g_buf (buffer pushed onto itself)
+ * or the separate block */
+JanetByteView janet_getbytes(const Janet *argv, int32_t n) {
+  SLOT_OK(n);
+  if (g_bytes_slot == -2) {
+    __CPROVER_assert(n >= 1, "byte view requested for a data slot");
+    if (nd_int()) {
+      JanetByteView v; v.bytes = g_buf->data; v.len = g_buf->count;
+#ifndef STR_PUSH_SELF_ANY
+      /* domain restriction: buffer_push_impl computes `buffer->count + view.len` in int32 before the overflow check of
+       * janet_buffer_extra; for a buffer of >= 1 GiB pushed onto itself that sum overflows (formal UB; with wrap-around
+       * the call still raises "buffer overflow"). Unit str.cfun.buffer.push_at.selfhuge keeps the obligation. */
+      __CPROVER_assume(g_buf->count <= INT32_MAX / 2);
+#endif
+      return v;
+    }
+    return g_bytes;
+  }
+  __CPROVER_assert(n == g_bytes_slot, "byte view requested for the byte-sequence slot");
+  return g_bytes;
+}
 int32_t janet_getinteger(const Janet *argv, int32_t n) { SLOT_OK(n); return SLOT_INT(argv, n); }
 double janet_getnumber(const Janet *argv, int32_t n) { SLOT_OK(n); __CPROVER_assume(janet_checktype(argv[n], JANET_NUMBER)); return janet_unwrap_number(argv[n]); }
 #define HR(argv, n, len) (SLOT_INT(argv, n) >= 0 ? (int64_t)SLOT_INT(argv, n) : (int64_t)SLOT_INT(argv, n) + (len) + 1)
@@ -180,6 +201,12 @@ static Janet cfun_buffer_slice_c(int32_t argc, Janet *argv)
 __CPROVER_requires(argc == g_argc && argc >= 0 && __CPROVER_r_ok(argv, (size_t)argc * JSZ) && g_new0 == SEQ_NULL)
 CF_PRE_BYTES
 __CPROVER_requires(WF_BUFFER(g_buf))
+#ifndef STR_SLICE_ANY_ARGC
+/* domain restriction: with NO argument the real code reads argv[0] (janet_getbytes) before janet_getslice checks the
+ * arity - a stale stack slot; the outcome is still an error (type error or arity error). Unit str.cfun.buffer.slice.argc0
+ * keeps the failing "argument slot index below argc" obligation. */
+__CPROVER_requires(argc >= 1)
+#endif
 __CPROVER_assigns(g_new0, g_new1)
 __CPROVER_ensures(argc >= 1 && argc <= 3 && g_new0 != SEQ_NULL && __CPROVER_return_value.u64 == janet_wrap_buffer(NEWBUF).u64)
 __CPROVER_ensures(WF_BUFFER(NEWBUF) && NEWBUF->count == g_range.end - g_range.start)
@@ -234,3 +261,29 @@ H_BIT(bitset, "buffer/bit-set")
 H_BIT(bitclear, "buffer/bit-clear")
 H_BIT(bittoggle, "buffer/bit-toggle")
 H_BIT(bitget, "buffer/bit")
+
+/* ---- (buffer/push-at buffer index & xs): index in [0, length] else raises; the xs (bytes for numbers, byte sequences
+ * otherwise - possibly the buffer itself) are written from index on; the buffer never gets shorter, the bytes before
+ * index are unchanged, raises instead of exceeding INT32_MAX; returns buffer.
+ * (The exact new length max(old, index + total size of xs) is a sum over the arguments and is not stated.) */
+int32_t g_at;
+static Janet cfun_buffer_push_at_c(int32_t argc, Janet *argv)
+CF_PRE CF_PRE_BYTES
+__CPROVER_requires(argc < 2 || g_at == SLOT_INT(argv, 1))
+#ifdef STR_PUSH_MAXARGC
+__CPROVER_requires(argc <= STR_PUSH_MAXARGC)      /* bound: the argument loop of buffer_push_impl is unwound */
+#endif
+CF_FRAME RET_ARG0 NEVER_FOREIGN_REALLOC
+__CPROVER_ensures(WF_BUFFER(g_buf) && argc >= 2 && g_at >= 0 && g_at <= g_oldcount)
+__CPROVER_ensures(g_buf->count >= g_oldcount)
+__CPROVER_ensures((g_idx >= 0 && g_idx < g_at) ==> g_buf->data[g_idx] == g_byte)
+__CPROVER_ensures(argc == 2 ==> (g_buf->count == g_oldcount && g_re_called == 0 && (GHOST_IN(g_buf) ==> g_buf->data[g_idx] == g_byte)))
+;
+void h_cfun_buffer_push_at(void) {
+  g_same = 0;
+  Janet *argv = mk_args(-2);
+  cfun_buffer_push_at(g_argc, argv);
+  REACH("buffer/push-at returns");
+  if (g_argc > 3 && g_buf->capacity != g_oldcap) REACH("buffer/push-at returns after growing");
+  if (g_argc > 2 && g_at < g_oldcount && g_buf->count == g_oldcount) REACH("buffer/push-at returns after overwriting inside the buffer");
+}
